@@ -24,13 +24,15 @@ use yvcommon::util::{opt, opt_usize, open_in, open_out, seed};
 fn record(kind: &str, id: &str, toks: Value, a: &run::Analysis, with_tree: bool) -> Value {
     json!({"kind": kind, "id": id, "toks": toks, "out": a.out,
            "tree": if with_tree && a.out == "ok" { a.tree.clone() } else { json!([]) },
-           "rt": a.rt, "pulled": a.pulled, "needed": a.needed, "ahead": a.ahead})
+           "rt": a.rt, "pulled": a.pulled, "needed": a.needed, "ahead": a.ahead,
+           "detail": a.detail.chars().take(160).collect::<String>(), "rt_detail": a.rt_detail,
+           "marks": a.marks.join(",")})
 }
 
 fn fail(out: &mut dyn Write, what: &str, line: usize, variant: usize, text: &str, a: &run::Analysis, extra: Value) {
     let v = json!({"fail": what, "line": line, "variant": variant, "text": text, "out": a.out, "detail": a.detail,
                    "printed": a.printed, "rt": a.rt, "rt_detail": a.rt_detail, "ahead": a.ahead,
-                   "pulled": a.pulled, "needed": a.needed, "extra": extra});
+                   "pulled": a.pulled, "needed": a.needed, "marks": a.marks, "extra": extra});
     writeln!(out, "{v}").unwrap();
 }
 
@@ -53,6 +55,62 @@ fn generic_checks(out: &mut dyn Write, line: usize, variant: usize, text: &str, 
     ok
 }
 
+/// Counts the syntactic constructs occurring in a tree (coverage evidence).
+fn count_kinds(v: &Value, k: &mut std::collections::BTreeMap<String, usize>) {
+    match v {
+        Value::Array(a) => a.iter().for_each(|x| count_kinds(x, k)),
+        Value::Object(m) => {
+            let mut bump = |s: String| *k.entry(s).or_insert(0) += 1;
+            if let Some(t) = m.get("t").and_then(Value::as_str) {
+                bump(format!("t:{t}"));
+            }
+            if m.get("bg") == Some(&json!(true)) {
+                bump("item:async".into());
+            }
+            if m.get("neg") == Some(&json!(true)) {
+                bump("pipeline:negated".into());
+            }
+            if m.get("cmds").and_then(Value::as_array).is_some_and(|c| c.len() > 1) {
+                bump("pipeline:multi".into());
+            }
+            if let Some(o) = m.get("op").and_then(Value::as_str) {
+                bump(format!("op:{o}"));
+            }
+            if let Some(o) = m.get("cont").and_then(Value::as_str) {
+                bump(format!("case:{o}"));
+            }
+            if m.get("arr") == Some(&json!(true)) {
+                bump("assign:array".into());
+            }
+            if m.get("m") == Some(&json!("S")) {
+                bump("word:single-field-mode".into());
+            }
+            if m.get("has_else") == Some(&json!(true)) {
+                bump("if:else".into());
+            }
+            if m.get("elifs").and_then(Value::as_array).is_some_and(|c| !c.is_empty()) {
+                bump("if:elif".into());
+            }
+            if let Some(b) = m.get("in").and_then(Value::as_bool) {
+                bump(if b { "for:in".into() } else { "for:no-in".into() });
+            }
+            if m.get("fd").and_then(Value::as_i64).is_some_and(|f| f >= 0) {
+                bump("redir:fd".into());
+            }
+            if let Some(mm) = m.get("m").and_then(Value::as_object) {
+                if let Some(t) = mm.get("t").and_then(Value::as_str) {
+                    bump(format!("modifier:{t}"));
+                }
+            }
+            if let Some(t) = m.get("k").and_then(Value::as_str) {
+                bump(format!("escape:{t}"));
+            }
+            m.values().for_each(|x| count_kinds(x, k));
+        }
+        _ => {}
+    }
+}
+
 fn replay(args: &[String]) -> i32 {
     yvcommon::util::quiet_panics();
     let variants = opt_usize(args, "--variants", 2);
@@ -62,7 +120,8 @@ fn replay(args: &[String]) -> i32 {
     });
     let input = open_in(args);
     let mut out = open_out(args);
-    let mut w = worker::Worker::new(10_000);
+    let mut w = worker::Worker::new(4_000);
+    let mut kinds = std::collections::BTreeMap::new();
     let s = seed();
     let (mut lines, mut cases, mut exp_ok, mut exp_err, mut exp_un) = (0usize, 0usize, 0usize, 0usize, 0usize);
     let (mut impl_ok_spec_err, mut canon_drift, mut canon_cmp, mut rt_checked, mut muts) = (0usize, 0, 0, 0, 0);
@@ -83,6 +142,10 @@ fn replay(args: &[String]) -> i32 {
         lines += 1;
         let toks: Vec<Tok> = v["toks"].as_array().map(|a| a.iter().map(Tok::from_wire).collect()).unwrap_or_default();
         let exp = v["exp"].as_str().unwrap_or("un");
+        if w.timeouts >= 3 {
+            break; // the code under test hangs: established; do not wait for every case
+        }
+        count_kinds(&v["tree"], &mut kinds);
         match exp {
             "ok" => exp_ok += 1,
             "err" => exp_err += 1,
@@ -183,6 +246,8 @@ fn replay(args: &[String]) -> i32 {
                 let wire: Vec<Value> = conc.iter().map(|t| t.wire.clone()).collect();
                 let mut r = record("toks", &format!("m{ln}.{m}"), Value::Array(wire), &a, true);
                 r["text"] = json!(text);
+                r["printed"] = json!(a.printed);
+                r["portable"] = json!(false);
                 writeln!(mo, "{r}").unwrap();
             }
         }
@@ -190,13 +255,16 @@ fn replay(args: &[String]) -> i32 {
     let summary = json!({"summary": true, "lines": lines, "cases": cases, "exp_ok": exp_ok, "exp_err": exp_err,
         "exp_un": exp_un, "impl_ok_spec_err": impl_ok_spec_err, "canon_compared": canon_cmp,
         "canon_drift": canon_drift, "drift_samples": drift_samples, "rt_checked": rt_checked,
-        "mutants": muts, "timeouts": w.timeouts, "samples": samples});
+        "mutants": muts, "timeouts": w.timeouts, "samples": samples, "kinds": kinds});
     writeln!(out, "{summary}").unwrap();
     0
 }
 
-/// Scripts embedded in a scripted-test file as here-documents `<<\__IN__`.
+/// Scripts embedded in a scripted-test file: the lines between a test macro
+/// (`test_oE ...`, an alias ending in `3<<\\__IN__`) and `__IN__`, and the
+/// bodies of explicit here-documents with a word-like delimiter.
 fn embedded_scripts(src: &str) -> Vec<String> {
+    const MACROS: &[&str] = &["test_x", "test_o", "test_O", "test_e", "test_oe", "test_Oe", "test_E", "test_oE", "test_OE"];
     let mut out = Vec::new();
     let mut cur: Option<(String, bool, String)> = None; // (delimiter, strip tabs, text)
     for line in src.split_inclusive('\n') {
@@ -211,6 +279,11 @@ fn embedded_scripts(src: &str) -> Vec<String> {
             }
             continue;
         }
+        let first = line.split_whitespace().next().unwrap_or("");
+        if MACROS.contains(&first) {
+            cur = Some(("__IN__".to_string(), false, String::new()));
+            continue;
+        }
         if let Some(p) = line.find("<<") {
             let rest = &line[p + 2..];
             let (tabs, rest) = match rest.strip_prefix('-') {
@@ -220,7 +293,7 @@ fn embedded_scripts(src: &str) -> Vec<String> {
             let rest = rest.trim_start();
             let rest = rest.trim_start_matches(['\\', '\'', '"']);
             let d: String = rest.chars().take_while(|c| c.is_ascii_alphanumeric() || *c == '_').collect();
-            if d.starts_with("__") && d.ends_with("__") && d.len() > 4 {
+            if d.len() >= 3 && !line.trim_start().starts_with('#') {
                 cur = Some((d, tabs, String::new()));
             }
         }
@@ -257,7 +330,12 @@ fn corpus(args: &[String]) -> i32 {
                 let a = w.analyse(&text, portable);
                 n += 1;
                 let id = if portable { format!("{id}@portable") } else { id.clone() };
-                let r = record("text", &id, json!([]), &a, false);
+                let mut r = record("text", &id, json!([]), &a, false);
+                if a.out != "ok" && a.out != "err" || a.ahead > 1 || matches!(a.rt, "ne" | "err" | "panic") {
+                    r["text"] = json!(text);
+                    r["printed"] = json!(a.printed);
+                }
+                r["portable"] = json!(portable);
                 writeln!(out, "{r}").unwrap();
                 if let Some(ff) = fails.as_mut() {
                     let mut buf: Vec<u8> = Vec::new();
@@ -316,13 +394,21 @@ fn soup(args: &[String]) -> i32 {
     let n = opt_usize(args, "--n", 1000);
     let mut out = open_out(args);
     let mut fails = opt(args, "--fails").map(|p| std::fs::File::create(p).expect("create --fails"));
-    let mut w = worker::Worker::new(10_000);
+    let mut w = worker::Worker::new(4_000);
     let mut rng = StdRng::seed_from_u64(seed() ^ 0x50_u64);
     for i in 0..n {
+        if w.timeouts >= 3 {
+            break;
+        }
         let text = soup_string(&mut rng);
         let portable = i % 4 == 3;
         let a = w.analyse(&text, portable);
-        let r = record("text", &format!("s{i}"), json!([]), &a, false);
+        let mut r = record("text", &format!("s{i}"), json!([]), &a, false);
+        if a.out != "ok" && a.out != "err" || a.ahead > 1 || matches!(a.rt, "ne" | "err" | "panic") {
+            r["text"] = json!(text);
+            r["printed"] = json!(a.printed);
+        }
+        r["portable"] = json!(portable);
         writeln!(out, "{r}").unwrap();
         if let Some(ff) = fails.as_mut() {
             let mut buf: Vec<u8> = Vec::new();
@@ -356,7 +442,7 @@ fn redo(args: &[String]) -> i32 {
     let p = opt(args, "--in").expect("--in");
     let v: Value = serde_json::from_str(&std::fs::read_to_string(p).expect("read")).expect("json");
     let text = v["text"].as_str().unwrap_or("");
-    let portable = v["variant"].as_u64() == Some(1) && v["portable"].as_bool() == Some(true);
+    let portable = v["portable"].as_bool().unwrap_or(false);
     let mut w = worker::Worker::new(10_000);
     let a = w.analyse(text, portable);
     let mut buf: Vec<u8> = Vec::new();
